@@ -529,10 +529,12 @@ impl Scenario for PowerScenario {
             for variant in ["lose_all", "half", "keep_all"] {
                 if std::time::Instant::now() >= env.deadline {
                     out.stat("enumeration_truncated", 1);
+                    out.deadline_cut = true;
                     return out;
                 }
                 let (ver, items) = self.run_cut(env, &plan, &trace, cut, variant, mix(seed_r, cut * 7 + variant.len() as u64));
                 out.executions += 1;
+                out.digest = crate::rng::fnv_step(out.digest, history_hash(&RunResult { incs: vec![ver.clone()], dir: dir.clone(), wall_ms: 0 }));
                 out.stat(&format!("fault.powerloss_{}", variant), 1);
                 out.stat("volatile_items_at_cuts", items);
                 if items > 0 || cut < max_io {
